@@ -204,6 +204,29 @@ def classify_write(prog, f, n, R, toupper_ok):
                     if d is None or d < 0:
                         return 'violation', 'zeros', 'byte count %s exceeds the zero buffer of %s bytes' % (P.show(w), P.show(z))
             return 'ok', 'zeros', 'zero-filled buffer of %s bytes' % P.show(z)
+    # storage of a member vector of scalars whose size is a verified class invariant
+    vm = m
+    vobj = None
+    if vm['k'] == 'CXXMemberCallExpr' and vm['callee']['name'] == 'data' and vm['callee'].get('classq', '').startswith('std::vector'):
+        vobj = vm.get('obj')
+    elif vm['k'] == 'UnaryOperator' and vm['op'] == '&':
+        e_ = f.nodes[f.strip(vm['ch'][0], 'all')]
+        if e_['k'] == 'CXXOperatorCallExpr' and e_.get('op') == '[]' and f.nodes[f.strip(e_['args'][1], 'all')].get('cv') == '0' and \
+                f.nodes[f.strip(e_['args'][0], 'noop')].get('t', '').replace('const ', '').startswith('std::vector<'):
+            vobj = e_['args'][0]
+    if vobj is not None:
+        on = f.nodes[f.strip(vobj, 'all')]
+        tm = re.match(r'^(?:const )?std::vector<([\w ]+)>$', f.nodes[f.strip(vobj, 'noop')].get('t', ''))
+        esz = {'float': 4, 'double': 8, 'char': 1, 'unsigned char': 1, 'short': 2, 'unsigned short': 2, 'int': 4, 'unsigned int': 4}.get(tm.group(1)) if tm else None
+        if on['k'] == 'MemberExpr' and on.get('mk') == 'field' and esz:
+            import codec_rules as _CR
+            K = _CR.vector_size_invariant(prog, on['fclass'], on['member'])
+            if K is not None:
+                for w in widths:
+                    c = w.get((), 0) if set(w.keys()) <= {()} else None
+                    if c is None or c > K * esz or c < 0:
+                        return 'violation', 'vector', '%s bytes are written from %s, which always holds %d elements of %d bytes' % (P.show(w), on['member'], K, esz)
+                return 'ok', 'vector', '%s always holds %d elements of %d bytes (every constructor, nothing resizes it); %s bytes written' % (on['member'], K, esz, '/'.join(P.show(w) for w in widths))
     import codec as _codec
     ga = _codec.Extractor(prog, 'w').gather_analysis(f, R, n, None, 0)
     if ga is not None:
